@@ -83,7 +83,7 @@ class Ctx(object):
                 property=prop or self.prop, oracle=oracle, signature=signature,
                 detail=jsonable(detail), case=jsonable(self.case)))
 
-    def expect(self, oracle, observed, correct, detail, deviants=None, eq=None):
+    def expect(self, oracle, observed, correct, detail, deviants=None, eq=None, also=()):
         """Compare an observation with the model's expectation.
 
         `deviants` maps known-finding keys to the value that finding's deviant model predicts;
@@ -95,6 +95,9 @@ class Ctx(object):
         same = (observed == correct) if eq is None else eq(observed, correct)
         if same:
             return True
+        for alt in also:     # other readings the statement allows (DESIGN.md 4)
+            if (observed == alt) if eq is None else eq(observed, alt):
+                return True
         if callable(deviants):
             deviants = deviants()
         if deviants:
